@@ -72,21 +72,51 @@ def flag_tables(chk, prog, props_rule="FLAG-TABLE"):
     r = ev.eval_fn(FO.methods["concrete_false"], FO.module, FO)
     chk.require(r.ret == ("is", F, C(False)), props_rule, "FlagOp.concrete_false", "f is False", derived=show(r.ret), expected="f is False", where=W("concrete_false"))
     # where / cond
+    def by_kind(ret):
+        """the result for f = True, f = False and a traced / array f: the decision tree is walked deciding `f is True`, `f is False`, isinstance(f, bool),
+        `f == True / False` and the truthiness of a CONCRETE f; for a traced f the walk stops at the first test on f's value (that join is the traced arm)"""
+        out = {}
+        for kind in ("T", "F", "traced"):
+            def walk(t, kind=kind):
+                """the leaves reachable for this kind of flag; a test the table does not know (e.g. a concreteness test of an array flag) is explored both ways"""
+                if not is_t(t, "phi"):
+                    return [t]
+
+                def truth(c):
+                    if is_t(c, "bool"):
+                        vs = [truth(x) for x in c[2]]
+                        if "?" in vs:
+                            return "?"
+                        return None if any(v is None for v in vs) else (all(vs) if c[1] == "and" else any(vs))
+                    if is_t(c, "un") and c[1] == "not":
+                        v = truth(c[2])
+                        return v if v in (None, "?") else not v
+                    if is_t(c, "is") and c[1] == F and c[2] in (C(True), C(False)):
+                        return kind != "traced" and (kind == "T") == c[2][1]
+                    if is_t(c, "cmp") and c[1] == "==" and c[2] == F and c[3] in (C(True), C(False)):
+                        return None if kind == "traced" else (kind == "T") == c[3][1]
+                    if is_t(c, "isinst") and c[1] == F and c[2] == "bool":
+                        return kind != "traced"
+                    if c == F:
+                        return None if kind == "traced" else kind == "T"
+                    return "?"
+                v = truth(t[1])
+                if v is None:
+                    return [t]  # a join on the VALUE of a traced flag: this is the traced arm
+                if v == "?":
+                    return walk(t[2]) + walk(t[3])
+                return walk(t[2] if v else t[3])
+            leaves_ = walk(ret)
+            out[kind] = leaves_[0] if all(x == leaves_[0] for x in leaves_) else ("conflict", tuple(leaves_))
+        return out
     r = ev.eval_fn(FO.methods["where"], FO.module, FO)
-    got = Arms()
-    for conds, ret in r.returns:
-        pos = [t for t, p in conds if p]
-        if ("is", F, C(True)) in pos:
-            got["T"] = ret
-        elif ("is", F, C(False)) in pos:
-            got["F"] = ret
-        else:
-            got.setdefault("other", []).append(ret)
+    try:
+        got = by_kind(r.ret)
+    except Unrecognised as e:
+        raise AnalysisError(f"FlagOp.where: unrecognised test {e}")
     # every flag that is not literally True / False - concrete ARRAYS included - goes through the elementwise select: an extra shortcut for concrete arrays
     # (e.g. `tf if f.all() else ff`) collapses a mixed vector flag to one side
-    others = got.get("other", [])
-    got["traced"] = others[0] if len(others) == 1 else None
-    ok = got.get("T") == P("tf") and got.get("F") == P("ff") and len(others) == 1 and got.get("traced") == ("where", F, P("tf"), P("ff"))
+    ok = got.get("T") == P("tf") and got.get("F") == P("ff") and got.get("traced") == ("where", F, P("tf"), P("ff"))
     # "agree ... for concrete and array flags": the concrete arms accept operands of any shape / dtype (they just return one), so the array arm must be the
     # BROADCASTING, dtype-promoting select (jnp.where); lax.select demands operands of the flag's shape and one dtype: where(array([T, F]), 3.0, 4.0) raises
     import ast as _ast
@@ -95,18 +125,13 @@ def flag_tables(chk, prog, props_rule="FLAG-TABLE"):
     chk.require(len(canon) == 1 and canon[0] in ("jax.numpy.where",), props_rule, "FlagOp.where/broadcast", "array-flag select", derived=str(canon), expected="jnp.where(f, tf, ff) - broadcasts a vector flag against scalar operands and promotes dtypes, as the concrete arms implicitly do", where=W("where"))
     chk.require(ok, props_rule, "FlagOp.where", "True -> tf, False -> ff, traced select(f, tf, ff)", derived={k: show(v) for k, v in got.items()}.__str__(), expected="tf / ff / lax.select(f, tf, ff)", where=W("where"))
     r = ev.eval_fn(FO.methods["cond"], FO.module, FO)
-    got = Arms()
     A = ("star", P("args"))
-    for conds, ret in r.returns:
-        pos = [t for t, p in conds if p]
-        if ("is", F, C(True)) in pos:
-            got["T"] = ret
-        elif ("is", F, C(False)) in pos:
-            got["F"] = ret
-        else:
-            got["traced"] = ret
+    try:
+        got = by_kind(r.ret)
+    except Unrecognised as e:
+        raise AnalysisError(f"FlagOp.cond: unrecognised test {e}")
     ct, cf = ("call", P("tf"), (A,), ()), ("call", P("ff"), (A,), ())
-    ok = got.get("T") == ct and got.get("F") == cf and got.get("traced") == ("phi", F, ct, cf) and len(r.returns) == 3
+    ok = got.get("T") == ct and got.get("F") == cf and got.get("traced") == ("phi", F, ct, cf)
     chk.require(ok, props_rule, "FlagOp.cond", "True -> tf(*args), False -> ff(*args), traced lax.cond(f, tf, ff, *args)", derived={k: show(v) for k, v in got.items()}.__str__(), expected="tf(*args) / ff(*args) / lax.cond(f, tf, ff, *args)", where=W("cond"))
     return n + 4
 
@@ -147,7 +172,7 @@ def mswitch(chk, prog):
     pairs = ("zip", (P("branches"), P("arg_tuples")))
     el = mk_elem(pairs)
     ok = is_call(t, "switch") and t[2][0] == P("idx")
-    shapes = dict(t[3]).get("operand") if ok else None
+    shapes = (dict(t[3]).get("operand") or (t[2][2] if len(t[2]) > 2 else None)) if ok else None  # lax.switch(index, branches, *operands)
     fns = t[2][1] if ok and len(t[2]) > 1 else None
     oks = is_t(shapes, "fam") and shapes[1] == pairs and is_t(shapes[2], "call") and is_call(shapes[2][1], "to_shape_fn") and shapes[2][1][2][0] == mk_proj(el, 0) and shapes[2][2] == (("star", mk_proj(el, 1)),)
     chk.require(ok and oks, "MSWITCH", "multi_switch/placeholders", "zero placeholders from the same (f, args) pairs", derived=show(shapes)[:200], expected="[to_shape_fn(f, zeros)(*args) for f, args in pairs] as the switch operand", where=where)
